@@ -6,6 +6,6 @@ From Coq Require Import NArith List.
 From Mdns Require Import Res Bytes Sched SchedSpec.
 Extraction Language OCaml.
 Extraction "model.ml"
-  Res.bind Sched.model_run Sched.hazard_free Sched.wf_cmd
+  Res.bind Sched.model_run Sched.wf_cmd
   SchedSpec.wf_hist SchedSpec.chk_C19 SchedSpec.chk_C13 SchedSpec.chk_C12
   List.length N.eqb N.add N.mul N.div N.modulo.
